@@ -21,7 +21,11 @@ FullFailures(ev) ==
       want == HAdd(HAdd(xin.resph, H_ContentEncoding, ContentEncodingName(xin)), DigestHeaderName(xin), DigestText(Draft(xin), enc.top))
       rr == RefRead(ev.file)
       rrl == RefReadL(ev.file, TRUE)
-  IN IF ev.signerr # "" THEN {"signer refused"}
+      \* a response that already carries the version's digest header cannot be MI-encoded again (one digest value,
+      \* one algorithm: the verifier reads a single "alg=value"); the library must refuse it up front
+      pre == HGet(xin.resph, DigestHeaderName(xin)) # <<>>
+  IN IF pre THEN (IF ev.signerr = "mi" THEN {} ELSE {"signer refused"})
+     ELSE IF ev.signerr # "" THEN {"signer refused"}
      ELSE
        (IF x.payload = enc.stream /\ HSet(x.resph) = HSet(want) /\ x.uri = xin.uri /\ x.status = xin.status
            /\ x.method = xin.method /\ HSet(x.reqh) = HSet(xin.reqh) THEN {} ELSE {"MiEncodePayload"})
